@@ -64,6 +64,7 @@ Section Route.
     unfold spec_pac_entry. destruct (is_empty (first_entry s) || str_eqb (first_entry s) (b "DIRECT")); [discriminate|].
     destruct (cut_byte 32 (first_entry s)) as [[kw x]|]; [|discriminate].
     destruct (split_host_port x) as [[h p]|] eqn:Es; [|discriminate].
+    destruct (valid_host h); cbn [negb]; [|discriminate].
     destruct (valid_port16 p) eqn:Ev; cbn [negb]; [|discriminate].
     destruct (spec_keyword kw) as [[ty'|]|]; try discriminate.
     intros H; inversion H; subst.
@@ -175,6 +176,7 @@ Section Route.
       by (destruct Hkw; subst; reflexivity).
     rewrite Hne, (cut_space_keyword kw rest Hsp).
     destruct (split_host_port rest) as [[h p]|]; [|reflexivity].
+    destruct (negb (valid_host h)); [reflexivity|].
     destruct (negb (valid_port16 p)); [reflexivity|].
     destruct Hkw; subst; reflexivity.
   Qed.
